@@ -484,7 +484,7 @@ def run(ctx):
             if len(samples) < 6 and len(H) >= 4:
                 samples.append(dict(world=WORLDS[wk][0].__name__, history=jsonable_history(H)))
     todo = [d for d in defs if d is not None]
-    res = ctx.eval_tallies(cs.HEADER, todo, per_file=350)
+    res = cs.eval_with_retry(ctx, todo, per_file=350)
     agree = 0
     kmap = [k for k, d in enumerate(defs) if d is not None]
     ncorr_fail = 0
